@@ -1,7 +1,7 @@
 /-
 Model of pkg/core/storage (C09): MemoryStore, MemCachedStore over a backend, the LevelDB / BoltDB
-range translation, as the code is written now (commit af64e2b applied: `performSeek` guards the
-equality test with `haveMem`).
+range translation, as the code is written now (commits af64e2b: `performSeek` guards the
+equality test with `haveMem`; 5043d25: in-memory backward seeks include keys extending the start).
 
   memory_store.go     MemoryStore.{Get,PutChangeSet,seek,SeekGC}, chooseMap, getCmpFunc
   memcached_store.go  Get/Put/Delete/PutChangeSet, prepareSeekMemSnapshot, performSeek,
@@ -69,11 +69,14 @@ structure SeekRange where
   depth : Nat
   deriving Repr
 
-/-- `isKeyOK` of memory_store.go:108-115 and memcached_store.go:200-207. -/
+/-- `isKeyOK` of memory_store.go:108-117 and memcached_store.go:200-209 (after commit 5043d25:
+backwards, keys extending the start point are included, as the disk backends do). -/
 def isKeyOK (rng : SeekRange) (k : Key) : Bool :=
   rng.pfx.isPrefixOf k &&
     (rng.start.isEmpty ||
-      (if rng.bw then lexLe (k.drop rng.pfx.length) rng.start else lexLe rng.start (k.drop rng.pfx.length)))
+      (if rng.bw then
+        lexLe (k.drop rng.pfx.length) rng.start || rng.start.isPrefixOf (k.drop rng.pfx.length)
+      else lexLe rng.start (k.drop rng.pfx.length)))
 
 /-- goleveldb `util.BytesPrefix(p).Limit`: `p` with its last non-0xff byte incremented and the rest
 cut; `none` (nil) if there is no such byte. (The Go loop scans from the end for the last byte
